@@ -20,7 +20,9 @@ MOD = __name__
 PREFIXES = [("p-out", "p"), ("a/b/out", "a/b"), ("mygateway1-out", "mygateway1-in"), ("x/y/z", "x/y/z/w"), ("/lead/out", "/lead/in"), ("t/", "u/"),
             ("home/(attic)/[gw]{1}|a.*?^$-out", "home/(attic)/[gw]{1}|a.*?^$-in"),
             # one topic tree for both directions: what the controller publishes comes back on its own subscription
-            ("shared", "shared"), ("s/t", "s/t")]
+            ("shared", "shared"), ("s/t", "s/t"),
+            # characters that mean something to % / str.format machinery
+            ("p%20a-out", "p%20a-in"), ("a%%b/{0}-out", "a%%b/{0}-in")]
 PAYLOADS = ["", "x", "a;b", ";", "a;b;c", "a/b", "é", "1", "a b", "#", "+", "a\u2028b\x1ec", "a\x85b\rc\x0bd"]
 _LOOP: VLoop | None = None
 
